@@ -877,6 +877,7 @@ func (r *Run) goStmt(st *State, fr *Frame, x *ssa.Go) []*State {
 	switch f := fnv.(type) {
 	case *Closure:
 		name = e.fnName[f.Fn]
+		r.shareClosure(st, f, "go")
 		// spawn contract: the preconditions of the body must hold where it is started
 		if blk := e.cs.Funcs[name]; blk != nil && len(blk.All("requires")) > 0 {
 			var args []Val
